@@ -67,7 +67,12 @@ def apply_simple_adc(
     1. Converts the resulting array to the specified data type (dtype).
     """
     output = (
-        (np.clip(signal, a_min=voltage_min, a_max=voltage_max) - voltage_min)
+        (
+            np.clip(
+                np.asarray(signal, dtype=float), a_min=voltage_min, a_max=voltage_max
+            )
+            - voltage_min
+        )
         / (voltage_max - voltage_min)
         * (2**bit_resolution - 1)
     )
